@@ -69,7 +69,8 @@ type request struct {
 	class  string
 	method string
 	body   []byte
-	raw    string // "", "short-body" (Content-Length larger than the body, then half-close), "bad-chunk"
+	raw    string // "", "short-body" (Content-Length larger than the body, then half-close), "bad-chunk", "slow-body"
+	pause  int    // slow-body: milliseconds between the two body segments
 	expect string
 	hash   *big.Int // for expectValid / expectLenient
 	id     int
@@ -133,6 +134,16 @@ func sendRaw(addr string, rq *request, watchdog time.Duration) (int, []byte, err
 		if _, err := conn.Write(append([]byte(head), rq.body...)); err != nil {
 			return 0, nil, err
 		}
+	case "slow-body": // a correct request whose body arrives in two segments
+		head = fmt.Sprintf("POST /prove HTTP/1.1\r\nHost: %s\r\nContent-Type: application/json\r\nContent-Length: %d\r\nConnection: close\r\n\r\n", addr, len(rq.body))
+		cut := len(rq.body) / 2
+		if _, err := conn.Write(append([]byte(head), rq.body[:cut]...)); err != nil {
+			return 0, nil, err
+		}
+		time.Sleep(time.Duration(rq.pause) * time.Millisecond)
+		if _, err := conn.Write(rq.body[cut:]); err != nil {
+			return 0, nil, err
+		}
 	case "bad-chunk":
 		head = fmt.Sprintf("POST /prove HTTP/1.1\r\nHost: %s\r\nContent-Type: application/json\r\nTransfer-Encoding: chunked\r\nConnection: close\r\n\r\n", addr)
 		payload := fmt.Sprintf("%x\r\n%s\r\nZZZ\r\n", len(rq.body), rq.body)
@@ -140,7 +151,7 @@ func sendRaw(addr string, rq *request, watchdog time.Duration) (int, []byte, err
 			return 0, nil, err
 		}
 	}
-	if tc, ok := conn.(*net.TCPConn); ok {
+	if tc, ok := conn.(*net.TCPConn); ok && rq.raw != "slow-body" {
 		tc.CloseWrite()
 	}
 	resp, err := http.ReadResponse(bufio.NewReader(conn), nil)
